@@ -318,6 +318,8 @@ func (r *runner) run(ctx context.Context, isStream bool, input any, opts ...Opti
 				subGraphInterrupts,
 				interruptAfterNodes,
 				append(completedTasks, cpt...),
+				nil,
+				nil,
 				checkPointID,
 				isSubGraph,
 				cm,
@@ -357,7 +359,11 @@ func (r *runner) run(ctx context.Context, isStream bool, input any, opts ...Opti
 					interruptRerunNodes,
 					subGraphInterrupts,
 					interruptAfterNodes,
-					append(completedTasks, newCompletedTasks...),
+					// completedTasks have already been resolved into the channels and into nextTasks:
+					// only the tasks collected since are still to be folded in, and nextTasks stay pending.
+					newCompletedTasks,
+					interruptBeforeNodes,
+					nextTasks,
 					checkPointID,
 					isSubGraph,
 					cm,
@@ -471,6 +477,8 @@ func (r *runner) handleInterruptWithSubGraphAndRerunNodes(
 	subGraphInterrupts map[string]*subGraphInterruptError,
 	interruptAfterNodes []string,
 	completeTasks []*task,
+	interruptBeforeNodes []string,
+	pendingTasks []*task, // tasks already created from earlier completions, not yet submitted
 	checkPointID *string,
 	isSubGraph bool,
 	cm *channelManager,
@@ -524,10 +532,14 @@ func (r *runner) handleInterruptWithSubGraphAndRerunNodes(
 		}
 	}
 	intInfo := &InterruptInfo{
-		State:      cp.State,
-		AfterNodes: interruptAfterNodes,
-		RerunNodes: interruptRerunNodes,
-		SubGraphs:  make(map[string]*InterruptInfo),
+		State:       cp.State,
+		BeforeNodes: interruptBeforeNodes,
+		AfterNodes:  interruptAfterNodes,
+		RerunNodes:  interruptRerunNodes,
+		SubGraphs:   make(map[string]*InterruptInfo),
+	}
+	for _, t := range pendingTasks {
+		cp.Inputs[t.nodeKey] = t.input
 	}
 	for _, t := range subgraphTasks {
 		if isStream {
